@@ -65,6 +65,77 @@ func (g *genState) svcWrite() *Write {
 	return w
 }
 
+// flipService: a (re)registration of sid on node whose service name, connect-native flag, kind or proxy
+// destination is drawn uniformly, so that re-registering an existing id often needs a deregistration
+// event (renamed, destination changed, connect-native removed, proxy turned into a plain service)
+func (g *genState) flipService(node, sid string) *Write {
+	r := g.r
+	w := &Write{K: "svc", Node: node, SID: sid, Port: 80 + 8000*r.Intn(2), Meta: pick(r, "", "a", "b")}
+	switch sid {
+	case "web1", "web2", "api1":
+		w.Name = pick(r, "web", "api")
+		if r.Intn(2) == 0 {
+			w.Kind = "native"
+		}
+	case "db1":
+		w.Name = pick(r, "db", "web")
+	default: // webp, apip
+		w.Name = sid
+		if r.Intn(4) > 0 {
+			w.Kind, w.Dest = "proxy", pick(r, "web", "api")
+		}
+	}
+	g.insts[node+"/"+sid] = true
+	return w
+}
+
+// comboWrite: ONE request / transaction that changes the node (meta and/or a node-level check) together
+// with one or several service updates on that node
+func (g *genState) comboWrite() *Write {
+	r := g.r
+	node := pick(r, nodes...)
+	sid := pick(r, sids...)
+	if n, s, ok := g.someInst(); ok && r.Intn(4) > 0 {
+		node, sid = n, s
+	}
+	if r.Intn(3) > 0 {
+		w := g.flipService(node, sid)
+		w.K = "reg"
+		switch r.Intn(3) {
+		case 0:
+			w.NMeta = pick(r, "p", "q", "r")
+		case 1:
+			w.NCheck = pick(r, "passing", "critical", "warning")
+		default:
+			w.NMeta, w.NCheck = pick(r, "p", "q", "r"), pick(r, "passing", "critical")
+		}
+		if r.Intn(3) == 0 {
+			w.Check, w.Status = "sc-"+sid, pick(r, "passing", "critical")
+		}
+		return w
+	}
+	t := &Write{K: "txn", Node: node}
+	if r.Intn(3) > 0 {
+		t.Ops = append(t.Ops, Write{K: "node", Node: node, Meta: pick(r, "p", "q", "r")})
+	}
+	for k := 1 + r.Intn(3); k > 0; k-- {
+		s := sid
+		if k > 1 {
+			s = pick(r, sids...)
+		}
+		if r.Intn(6) == 0 && g.insts[node+"/"+s] {
+			delete(g.insts, node+"/"+s)
+			t.Ops = append(t.Ops, Write{K: "dsvc", Node: node, SID: s})
+		} else {
+			t.Ops = append(t.Ops, *g.flipService(node, s))
+		}
+	}
+	if r.Intn(2) == 0 {
+		t.Ops = append(t.Ops, Write{K: "chk", Node: node, Check: "nc", Status: pick(r, "passing", "critical")})
+	}
+	return t
+}
+
 func (g *genState) someInst() (string, string, bool) {
 	var ks []string
 	for _, n := range nodes {
@@ -98,6 +169,9 @@ func (g *genState) write(malformed bool) *Write {
 		}
 	}
 	acl := g.flavour == "acl"
+	if r.Intn(100) < 16 {
+		return g.comboWrite()
+	}
 	x := r.Intn(100)
 	switch {
 	case x < 34:
